@@ -219,7 +219,7 @@ pub fn value_books() -> Vec<(String, Model<'static>)> {
 pub fn string_books(rng: &mut Rng, thorough: bool) -> Vec<(String, Model<'static>)> {
     let mut strs: Vec<String> = vec!["<".into(), ">".into(), "&".into(), "\"".into(), "'x".into(), "a'b".into(), "&amp;".into(), "]]>".into(), " lead".into(), "trail ".into(), "  ".into(), "a  b".into(),
         "tab\there".into(), "line\nbreak".into(), "cr\rhere".into(), "crlf\r\nx".into(), "_x0041_".into(), "_x005F_".into(), "_x0041".into(), "__x0041_".into(), "_xD800_".into(), "_x000A_".into(),
-        "é".into(), "€".into(), "😀".into(), "\u{d7ff}\u{e000}\u{fffd}".into(), "\u{10000}\u{10ffff}".into(), "\u{7f}\u{80}\u{9f}".into(), "\u{feff}bom".into(), "\u{200b}zw".into(), "\u{2028}ls".into(), "=not a formula".into()];
+        "é".into(), "€".into(), "😀".into(), "\u{d7ff}\u{e000}\u{fffd}".into(), "\u{10000}\u{10ffff}".into(), "\u{7f}\u{80}\u{9f}".into(), "\u{feff}bom".into(), "\u{200b}zw".into(), "\u{2028}ls".into(), "=not a formula".into(), "_x0041\u{1}".into()];
     for c in 0u32..32 { if c != 9 && c != 10 && c != 13 { strs.push(format!("c{}x", char::from_u32(c).unwrap())); } }
     for _ in 0..(if thorough { 400 } else { 60 }) {
         let n = rng.range(1, 12) as usize; let mut s = String::new();
